@@ -74,17 +74,20 @@ Definition root_stale (e : env) (prev : list bool) (L : list node) : bool :=
 
 (* The panics of the Rust code (length not a multiple, index out of range, last node not a Cmux) have no
    value here (false); [exec_safe] below says when they cannot happen, [eval_strict] treats them as errors. *)
+(* the level loop on the already chunked table *)
+Definition eval_levels_stale (w : nat) (lv : list (list node)) (e : env) : bool :=
+  match lv with
+  | [] => false
+  | _ :: _ => root_stale e (fst (fold_left (step_stale e) (removelast lv) (init_buf w))) (last lv [])
+  end.
+
 Definition eval_stale (c : circuit) (e : env) : bool :=
   match c_width c with
   | 0 => false                                      (* state_size == 0: out_i.data_mut().zero() *)
   | S _ =>
     match levels_of c with
     | None => false
-    | Some lv =>
-      match lv with
-      | [] => false
-      | _ :: _ => root_stale e (fst (fold_left (step_stale e) (removelast lv) (init_buf (c_width c)))) (last lv [])
-      end
+    | Some lv => eval_levels_stale (c_width c) lv e
     end
   end.
 
